@@ -31,7 +31,7 @@ def plan(tier, seed):
     specs = [{"kind": "directed"}]
     n = 11 if tier == "quick" else 45
     for i in range(n):
-        specs.append({"kind": "random", "n": 1500 if tier == "quick" else 6000, "depth": 2 + i % 3})
+        specs.append({"kind": "random", "n": 1500 if tier == "quick" else 12000, "depth": 2 + i % 3})
     return specs
 
 
